@@ -54,7 +54,13 @@ static std::string show_args(const VfRelation* R, const Eval& E) {
 
 // ================================================================================================ C03
 static int kmax(int nt) { return nt == 0 ? 1 : 4; }
-static int window(int nt) { return nt == 0 ? 4 : 20; }
+// operand window (binades around 1): as wide as the exponent range allows when every operand (one of them squared) enters a product
+static int window(int nt, int nargs) {
+  const int S = 2 * kmax(nt) * 7;                       // largest scale exponent of one operand (sum |d| <= 7)
+  const int budget = (nt == 0 ? 120 : 1000) / (nargs + 1) - S;
+  const int cap = nt == 0 ? 45 : 200;
+  return budget < 2 ? 2 : budget > cap ? cap : budget;
+}
 static int scale_exp(const int* d, const long long* k) { int s = 0; for (int q = 0; q < 7; q++) s += 2 * (int)k[q] * d[q]; return s; }
 
 static Verdict c03_scaling(const Case& c) {
@@ -94,7 +100,7 @@ static Verdict c03_scaling(const Case& c) {
 }
 static rc::Gen<Case> gen_c03(int inst) {
   const Ref rf = g_all[(size_t)inst]; const VfRelation* R = g_rel[rf.nt][(size_t)rf.idx];
-  const int n = total_comps(R), nt = rf.nt, km = kmax(nt), w = window(nt);
+  const int n = total_comps(R), nt = rf.nt, km = kmax(nt), w = window(nt, R->nargs > 4 ? 1 : R->nargs);
   return rc::gen::map(rc::gen::tuple(rc::gen::container<std::vector<int>>(7, irange(-km, km)), gen_reals(n, nt, -w, w, kNeg), irange(0, 1)),
                       [=](const std::tuple<std::vector<int>, std::vector<LD>, int>& t) {
                         Case c; c.i = {nt, rf.idx}; for (int x : std::get<0>(t)) c.i.push_back(x); c.r = std::get<1>(t);
